@@ -1,11 +1,213 @@
-(* C04 - Tilt carried as metadata is optically identical to tilt in the OPD. *)
-From Coq Require Import Permutation.
-From LV Require Import Model.Tilt Proofs.TiltP.
+(* C04 - Tilt carried as metadata is optically identical to tilt in the OPD.
+   Model: Model/Tilt.v (plane.py Tilt/DispersiveTilt/ptt_vector/fit_tilt/multiply, field.py Field.shift,
+   wavefront.py Wavefront(tilt=), propagate.py fix/sub-pixel split and the per-field window), after the
+   fix: commits 367bada and d811417.  Floats are rationals (Qc); [S] ranges over every commutative ring with
+   a kernel e = [ke] with e(a+b) = e a * e b (over C: e t = exp(-2 pi i t)); the least-squares statements are
+   over the reals ([RS]).  [qsum] is the sum of a list of rationals. *)
+From Coq Require Import Permutation Reals.
+From LV Require Import Lib.Cis Model.Tilt Proofs.TiltP Proofs.TiltLsqP.
 Local Open Scope Qc_scope.
 
+(* (a) Field.shift of angular tilts Tilt(x=a_k, y=b_k): (row, column) displacement in oversampled output
+   samples = ( z*sum(a)*os/du_row , -z*sum(b)*os/du_col ): +x tilt moves the image to larger row index,
+   +y tilt to smaller column index, each axis with its own pixel size; 'xy' indexing returns (x, y) *)
 Theorem C04_field_shift_formula :
-  forall (l : list (Qc * Qc)) (z wl dur duc os : Qc),
+  forall (l : list (Qc * Qc)) (z wl dur duc os : Qc), dur <> 0 -> duc <> 0 ->
   field_shift (map (fun ab => mk_tilt (fst ab) (snd ab)) l) z wl (Some (dur, duc)) os IJ
-  = Ok (z * qsum (map fst l) * os / dur, - (z * qsum (map snd l) * os / duc)).
-Proof. exact field_shift_formula. Qed.
+  = Ok (z * qsum (map fst l) * os / dur, - (z * qsum (map snd l) * os / duc))
+  /\ field_shift (map (fun ab => mk_tilt (fst ab) (snd ab)) l) z wl (Some (dur, duc)) os XY
+  = Ok (- (z * qsum (map snd l) * os / duc), - (z * qsum (map fst l) * os / dur)).
+Proof. exact (fun l z wl dur duc os _ _ => conj (field_shift_formula l z wl dur duc os) (field_shift_formula_xy l z wl dur duc os)). Qed.
 Print Assumptions C04_field_shift_formula.
+
+(* (b) any list of angular and first-order dispersive elements: the folded displacement is the sum of the
+   displacements each element produces alone, and neither it nor Field.shift depends on the order *)
+Theorem C04_displacements_add_in_any_order :
+  forall (tl tl' : list tilt) (z wl : Qc),
+  fold_tilts tl z wl = (qsum (map (fun t => fst (tilt_shift t 0 0 z wl)) tl),
+                        qsum (map (fun t => snd (tilt_shift t 0 0 z wl)) tl))
+  /\ (Permutation tl tl' ->
+      fold_tilts tl z wl = fold_tilts tl' z wl
+      /\ forall ps os ix, field_shift tl z wl ps os ix = field_shift tl' z wl ps os ix).
+Proof.
+  exact (fun tl tl' z wl => conj (fold_tilts_sum tl z wl)
+           (fun H => conj (fold_tilts_perm tl tl' z wl H) (fun ps os ix => field_shift_perm tl tl' z wl ps os ix H))).
+Qed.
+Print Assumptions C04_displacements_add_in_any_order.
+
+(* ... including where Tilt / DispersiveTilt planes stand in the chain relative to the masked (segmented)
+   plane: every segment's field receives all of them *)
+Theorem C04_chain_order_irrelevant :
+  forall (w0 pre post pre' post' : list tilt) (size : nat) (pt : list tilt) z wl ps os ix,
+  Permutation (pre ++ post) (pre' ++ post') ->
+  map (fun tl => field_shift tl z wl ps os ix) (chain_tilts w0 (map CTilt pre ++ CPlane size pt :: map CTilt post))
+  = map (fun tl => field_shift tl z wl ps os ix) (chain_tilts w0 (map CTilt pre' ++ CPlane size pt :: map CTilt post')).
+Proof. exact chain_order_irrelevant. Qed.
+Print Assumptions C04_chain_order_irrelevant.
+
+(* (c) multiplying the pupil by the phasor exp(+2 pi i opd/lambda) of the OPD ramp a*X*dx_r - b*Y*dx_c that
+   Tilt(x=a, y=b) stands for equals shifting the output coordinates of the defining Fourier sum by exactly the
+   (row, column) shift Field.shift reports for that Tilt, with alpha = dx*du/(lambda*z*os) per axis *)
+Theorem C04_ramp_is_shift :
+  forall (S : Scalar), is_ring S -> kernel_laws S ->
+  forall (f : arr S) (a b dxr dxc dur duc wl z os : Qc) (offr offc : Z) (U V : Qc),
+  dur <> 0 -> duc <> 0 -> wl <> 0 -> z <> 0 -> os <> 0 ->
+  exists sr sc,
+    field_shift [mk_tilt a b] z wl (Some (dur, duc)) os IJ = Ok (sr, sc)
+    /\ sr = z * a * os / dur /\ sc = - (z * b * os / duc)
+    /\ fourier_sum (mkArr (nr f) (nc f) (fun x y =>
+          (get f x y * ke (- (opd_ramp a b dxr dxc (x - nr f / 2 + offr) (y - nc f / 2 + offc) / wl)))%K))
+         (dft_alpha dxr dur wl z os) (dft_alpha dxc duc wl z os) offr offc U V
+       = fourier_sum f (dft_alpha dxr dur wl z os) (dft_alpha dxc duc wl z os) offr offc (U - sr) (V - sc).
+Proof. exact tilt_metadata_equals_ramp. Qed.
+Print Assumptions C04_ramp_is_shift.
+
+(* the same for lentil's dft2: ramp phasor in the input = the shift added to dft2's shift argument *)
+Theorem C04_dft2_ramp_is_shift :
+  forall (S : Scalar), is_ring S -> kernel_laws S -> forall (sq : Qc -> S)
+         (f : arr S) (a b dxr dxc dur duc wl z os : Qc) (offr offc M N : Z) (shr shc : Qc) (unitary : bool) (u v : Z),
+  dur <> 0 -> duc <> 0 -> wl <> 0 -> z <> 0 -> os <> 0 -> (0 <= u < M)%Z -> (0 <= v < N)%Z ->
+  get (dft2 sq (mkArr (nr f) (nc f) (fun x y =>
+          (get f x y * ke (- (opd_ramp a b dxr dxc (x - nr f / 2 + offr) (y - nc f / 2 + offc) / wl)))%K))
+         (dft_alpha dxr dur wl z os) (dft_alpha dxc duc wl z os) M N shr shc offr offc unitary) u v
+  = get (dft2 sq f (dft_alpha dxr dur wl z os) (dft_alpha dxc duc wl z os) M N
+           (shr + z * a * os / dur) (shc + - (z * b * os / duc)) offr offc unitary) u v.
+Proof. exact dft2_ramp_is_shift. Qed.
+Print Assumptions C04_dft2_ramp_is_shift.
+
+(* (d) np.fix / sub-pixel split: s = fix(s) + r, |r| < 1, r has the sign of s; nothing is dropped *)
+Theorem C04_fix_subpx_split :
+  forall s : Qc,
+  s = zq (fst (fix_subpx s)) + snd (fix_subpx s)
+  /\ - (1) < snd (fix_subpx s) /\ snd (fix_subpx s) < 1
+  /\ (0 <= s -> 0 <= snd (fix_subpx s)) /\ (s <= 0 -> snd (fix_subpx s) <= 0).
+Proof. exact fix_subpx_split. Qed.
+Print Assumptions C04_fix_subpx_split.
+
+(* what propagate_dft evaluates for a field with tilt shift (sr, sc): the output field covers the output box
+   intersected with the propagation window centred on fix(shift), and its sample (a, b) - plane coordinate
+   (a + rmin, b + cmin) - is the defining sum at that coordinate minus the complete shift (times the unitary
+   factor): by C04_ramp_is_shift the same value the OPD-ramp representation has at that sample *)
+Theorem C04_propagate_tilt_samples :
+  forall (S : Scalar), is_ring S -> kernel_laws S -> forall (sq : Qc -> S)
+         (f : arr S) (ar ac : Qc) (offr offc : Z) (oe : extent) (Pr Pc : Z) (sr sc : Qc)
+         (Ir Ic isr isc : Z) (shr shc : Qc) (a b : Z),
+  (0 < Pr)%Z -> (0 < Pc)%Z ->
+  tilted_window oe Pr Pc sr sc = Some ((Ir, Ic), (isr, isc), (shr, shc)) ->
+  (0 <= a < Ir)%Z -> (0 <= b < Ic)%Z ->
+  let ie := intersection_extent oe (array_extent Pr Pc (qfix sr) (qfix sc)) in
+  array_extent Ir Ic isr isc = ie
+  /\ get (dft2 sq f ar ac Ir Ic shr shc offr offc true) a b
+     = (fourier_sum f ar ac offr offc (zq (a + fst (fst (fst ie))) - sr) (zq (b + snd (fst ie)) - sc)
+        * sq (qabs (ar * ac)))%K.
+Proof.
+  exact (fun S R Kn sq f ar ac offr offc oe Pr Pc sr sc Ir Ic isr isc shr shc a b HPr HPc Hw Ha Hb =>
+    conj (proj1 (tilted_window_samples oe Pr Pc sr sc Ir Ic isr isc shr shc HPr HPc Hw))
+         (propagate_tilt_samples S R Kn sq f ar ac offr offc oe Pr Pc sr sc Ir Ic isr isc shr shc a b HPr HPc Hw Ha Hb)).
+Qed.
+Print Assumptions C04_propagate_tilt_samples.
+
+(* (e) fit_tilt on a (segment) mask, over the reals.  b = masked basis {1, r*dx_r, -c*dx_c} (ptt_vector);
+   t = what np.linalg.lstsq returns (contract: a solution of the normal equations).  If the masked basis is
+   linearly independent: t is the only solution and the unique least-squares minimiser; the new OPD has
+   least-squares coefficients (t0, 0, 0) - piston kept, tip/tilt removed exactly; new OPD + ramp of the
+   recorded Tilt(x=t1, y=t2) = old OPD on the mask; off the mask the OPD is untouched *)
+Theorem C04_fit_tilt_lsq :
+  forall (dxr dxc : R) (mask opd : arr RS) (t : R * R * R),
+  let m := nr opd in let n := nc opd in
+  let b := ptt_masked (S := RS) m n dxr dxc mask in
+  (forall d : Z -> R, (forall i j, (0 <= i < m)%Z -> (0 <= j < n)%Z -> lin (S := RS) 3 b d i j = 0%R) ->
+                      forall k, (0 <= k < 3)%Z -> d k = 0%R) ->
+  NE (S := RS) m n 3 b (cof t) (get opd) ->
+  (forall t', NE (S := RS) m n 3 b (cof t') (get opd) -> t' = t)
+  /\ (forall c', (sqerr (S := RS) m n 3 b (cof t) (get opd) <= sqerr (S := RS) m n 3 b c' (get opd))%R)
+  /\ (forall t', (sqerr (S := RS) m n 3 b (cof t') (get opd) <= sqerr (S := RS) m n 3 b (cof t) (get opd))%R -> t' = t)
+  /\ (forall t', NE (S := RS) m n 3 b (cof t') (get (fit_mono (S := RS) dxr dxc mask opd t)) -> t' = (fst (fst t), 0%R, 0%R))
+  /\ (forall i j, get mask i j = 1%R ->
+        (get (fit_mono (S := RS) dxr dxc mask opd t) i j
+         + ramp_s (S := RS) (snd (fst t)) (snd t) dxr dxc (i - m / 2) (j - n / 2))%R = get opd i j)
+  /\ (forall i j, get mask i j = 0%R -> get (fit_mono (S := RS) dxr dxc mask opd t) i j = get opd i j).
+Proof. exact fit_tilt_lsq. Qed.
+Print Assumptions C04_fit_tilt_lsq.
+
+(* the fourth representation: fitting an OPD that is piston + the ramp of Tilt(x=a, y=b) on the mask records
+   exactly (a, b) (and piston p) *)
+Theorem C04_fit_recovers_ramp :
+  forall (dxr dxc p a c : R) (mask opd : arr RS) (t : R * R * R),
+  let m := nr opd in let n := nc opd in
+  let b := ptt_masked (S := RS) m n dxr dxc mask in
+  (forall d : Z -> R, (forall i j, (0 <= i < m)%Z -> (0 <= j < n)%Z -> lin (S := RS) 3 b d i j = 0%R) ->
+                      forall k, (0 <= k < 3)%Z -> d k = 0%R) ->
+  (forall i j, get mask i j = 0%R \/ get mask i j = 1%R) ->
+  (forall i j, get mask i j = 1%R -> get opd i j = (p + ramp_s (S := RS) a c dxr dxc (i - m / 2) (j - n / 2))%R) ->
+  NE (S := RS) m n 3 b (cof t) (get opd) ->
+  t = (p, a, c).
+Proof. exact fit_recovers_ramp. Qed.
+Print Assumptions C04_fit_recovers_ramp.
+
+(* segmented planes (any ring): on a sample covered by exactly one segment mask, new OPD + ramp of that
+   segment's recorded tilt = old OPD *)
+Theorem C04_fit_segmented_on_mask :
+  forall (S : Scalar), is_ring S ->
+  forall (dxr dxc : S) (opd : arr S) (masks : list (arr S)) (ts : list (S * S * S)) l1 l2 mk t i j,
+  combine masks ts = l1 ++ (mk, t) :: l2 ->
+  get mk i j = k1 ->
+  (forall mt, In mt (l1 ++ l2) -> get (fst mt) i j = k0) ->
+  (get (fit_seg dxr dxc masks opd ts) i j
+   + ramp_s (snd (fst t)) (snd t) dxr dxc (i - nr opd / 2) (j - nc opd / 2))%K = get opd i j.
+Proof. exact (fun S R dxr dxc opd => fit_seg_on_mask S R dxr dxc opd). Qed.
+Print Assumptions C04_fit_segmented_on_mask.
+
+(* the executed model's fit (rational Cramer solver, validated) returns a solution of the normal equations,
+   records Tilt(x=t1, y=t2) and subtracts the masked ramp *)
+Theorem C04_executable_fit_solves_normal_equations :
+  forall (dxr dxc : Qc) (mask opd : arr QS) (tl : list tilt) (p' : qplane),
+  fit_tilt (mkQPlane (Some (dxr, dxc)) [mask] (Some opd) tl) = Ok p' ->
+  exists t : Qc * Qc * Qc,
+    NE (S := QS) (nr opd) (nc opd) 3 (ptt_masked (S := QS) (nr opd) (nc opd) dxr dxc mask) (cof t) (get opd)
+    /\ qp_tilt p' = tl ++ [mk_tilt (snd (fst t)) (snd t)]
+    /\ qp_opd p' = Some (force (fit_mono (S := QS) dxr dxc mask opd t)).
+Proof. exact fit_tilt_mono_spec. Qed.
+Print Assumptions C04_executable_fit_solves_normal_equations.
+
+(* (f) first-order DispersiveTilt; root = sqrt(1 + trace[0]^2) enters through its defining property.
+   The displacement (x, y) lies on y = polyval(trace, x), at arc length |d| from the trace origin (0, trace[1])
+   (squared: x^2 + (y - t1)^2 = d^2, on the side given by the sign of d), where polyval(dispersion, d) = lambda *)
+Theorem C04_dispersive_first_order :
+  forall (t0 t1 d0 d1 root wl z : Qc), d0 <> 0 -> root * root = 1 + t0 * t0 ->
+  let xy := tilt_shift (TiltDisp t0 t1 d0 d1 root) 0 0 z wl in
+  let d := (wl - d1) / d0 in
+  snd xy = t0 * fst xy + t1
+  /\ fst xy * fst xy + (snd xy - t1) * (snd xy - t1) = d * d
+  /\ d0 * d + d1 = wl
+  /\ fst xy * root = d.
+Proof. exact dispersive_first_order_q. Qed.
+Print Assumptions C04_dispersive_first_order.
+
+(* (g) any history  fit, (OPD update, fit)*  of a plane with [size] segments: plane.tilt is a concatenation of
+   1 + #updates blocks of [size] entries; segment n's field receives entry n of every block
+   (self.tilt[n::self.size]), and propagation sees that list only through its folded sum *)
+Theorem C04_repeated_fit_accumulates :
+  forall (p : qplane) (ds : list (arr QS)) (p' : qplane),
+  qp_opd p <> None -> qp_tilt p = [] -> fit_history p ds = Ok p' ->
+  let size := length (qp_masks p) in
+  exists blocks : list (list tilt),
+    qp_tilt p' = concat blocks /\ length blocks = Datatypes.S (length ds)
+    /\ Forall (fun b => length b = size) blocks
+    /\ forall n, (n < size)%nat ->
+         stride n size (qp_tilt p') = map (fun b => nth n b (TiltAng 0 0)) blocks
+         /\ forall w tl' z wl ps os ix,
+              fold_tilts tl' z wl = fold_tilts (stride n size (qp_tilt p')) z wl ->
+              field_shift (w ++ tl') z wl ps os ix = field_shift (w ++ stride n size (qp_tilt p')) z wl ps os ix.
+Proof. exact repeated_fit_accumulates. Qed.
+Print Assumptions C04_repeated_fit_accumulates.
+
+(* non-vacuity: the independence hypothesis of the fit theorems holds for a full 2x2 mask with unit pixels,
+   and the root hypothesis of the dispersive theorem for trace slope 3/4 *)
+Example C04_nonvacuous :
+  (forall d : Z -> R,
+     (forall i j, (0 <= i < 2)%Z -> (0 <= j < 2)%Z ->
+        lin (S := RS) 3 (ptt_masked (S := RS) 2 2 1%R 1%R (mkArr (S := RS) 2 2 (fun _ _ => 1%R))) d i j = 0%R) ->
+     forall k, (0 <= k < 3)%Z -> d k = 0%R)
+  /\ (Q2Qc (5 # 4)) * (Q2Qc (5 # 4)) = 1 + (Q2Qc (3 # 4)) * (Q2Qc (3 # 4)).
+Proof. exact nonvacuous_example. Qed.
